@@ -1,6 +1,8 @@
 """C01 - incremental appends give exactly the batch result (schedule independence)."""
 from __future__ import annotations
 
+from hypothesis import strategies as st
+
 from hxv.gen import configs as gc
 from hxv.lib import Result, Violation, diff_key, first_diff, raises, snap
 from hxv.props import twin
@@ -15,6 +17,15 @@ RULE = (
     "on a collapsing timeframe, an append boundary that splits a bucket"
 )
 FLOORS = {"boundary_inside_bucket": (0.25, "has_tf"), "starts_empty": (0.2, None)}
+FUZZ = {"shards": ["ADX", "Supertrend", "fn:crossover", "STOCH"], "procs_per_shard": 2, "runs": 60000, "seconds": 300}
+
+
+@st.composite
+def cases(draw, subject, max_n):
+    case = draw(twin.twin_cases(subject, max_n=max_n))
+    if draw(st.integers(0, 4)) == 0:
+        case["ha"] = True  # schedule independence must also hold on converted candles (with timeframe / fill)
+    return case
 
 
 def run_case(case) -> Result:
@@ -29,6 +40,8 @@ def run_case(case) -> Result:
         labels.append("boundary_inside_bucket")
     if case.get("preload", 0) == 0:
         labels.append("starts_empty")
+    if case.get("ha"):
+        labels.append("heikin_ashi")
 
     b_exc = i_exc = None
     try:
@@ -77,7 +90,7 @@ def shards(tier):
     out = []
     for s in gc.SUBJECTS:
         cost = 3 if s in ("ADX", "TSI", "STOCH", "MACD", "HMA", "Supertrend") else 1
-        out.append(Shard(s, (lambda s=s: twin.twin_cases(s, max_n=mx)), n, subject=s, cost=cost))
+        out.append(Shard(s, (lambda s=s: cases(s, mx)), n, subject=s, cost=cost))
     for s in gc.SUBJECTS:
         out.append(Shard("enum:" + s, cases=_enumerated(s), subject=s, exhaustive=True, cost=0.5))
     return out
